@@ -50,6 +50,7 @@ func vC04exec(big bool) {
 	}
 	q := w.pq
 	vAssert("inv-queue-shape", vAnd(vAnd(q.length <= q.size, q.start < q.size), vAnd(q.end < q.size, q.end == (q.start+q.length)%q.size)))
+	vAssert("inv-process-limit", q.length <= P)
 	for i := Address(0); i < q.size; i++ {
 		vAssert("inv-queued-pc-below-M", vImplies(i < q.length, q.queue[(q.start+i)%q.size] < M))
 	}
